@@ -180,8 +180,19 @@ def run(run):
     # ---- R5 the corners a grid is computed from are the ones the subdivision produced: no other producer of tiles, and the
     # only in-place consumer of corners (the compiled bounding-box test behind the tile filters) never sees a tile's own array
     others = [x for x in toastgeom.tile_construction_sites(project) if x[0].qual not in (T + "._create_level1_tiles", T + "._div4")]
-    if others:
+    def rewraps(c_):
+        # the new tile's corners are made from an existing tile's corners (`t._replace(corners=..)`, Tile(pos, np.asarray(t.corners), ..))
+        if isinstance(c_.func, ast.Attribute) and c_.func.attr == "_replace":
+            return True
+        corners = c_.args[1] if len(c_.args) > 1 else next((k.value for k in c_.keywords if k.arg == "corners"), None)
+        return corners is not None and any(isinstance(x, ast.Attribute) and x.attr == "corners" for x in ast.walk(corners))
+    definite = [x for x in others if rewraps(x[1])]
+    if others and not definite:
         f_, c_, kind_ = others[0]
+        run.undecided("C05.R5", f_, c_, "%s is a further producer of tiles (%s) beside _create_level1_tiles / _div4: that its corners agree with the subdivision's is not "
+                      "decided" % (f_.short, kind_), kind="other-tile-producer")
+    elif others:
+        f_, c_, kind_ = definite[0]
         run.violated("C05.R5", f_, c_, "%s makes a tile whose corners are not those produced by the subdivision (%s): if they are a mutable array, the bounding-box "
                      "tile filter (which sorts np.asarray(tile.corners) in place) rewrites the corners the pixel grid is later computed from" % (f_.short, kind_),
                      kind="corners-rewrapped")
